@@ -113,7 +113,8 @@ func (srv *BfeServer) serverDataConfReload(hostFile, vipFile, routeFile, cluster
 	srv.ServerConf = newServerConf
 	srv.confLock.Unlock()
 
-	srv.ReverseProxy.setTransports(srv.ServerConf.ClusterTable.ClusterMap())
+	// Note: use newServerConf here, srv.ServerConf should not be accessed without confLock
+	srv.ReverseProxy.setTransports(newServerConf.ClusterTable.ClusterMap())
 
 	// set gslb basic
 	srv.balTable.SetGslbBasic(newServerConf.ClusterTable)
